@@ -41,6 +41,7 @@ def parseRepl (k v : String) : Option Repl := do
   | "cbo" => some (.cbo n)
   | "tab" => some (.tab n)
   | "tin" => some (.tin n)
+  | "tov" => some (.tov n)
   | _ => none
 
 /-- 48 ordinary targets + 6 variadic steady targets (locations 48..53; the probe encodes the argument as a tuple) -/
